@@ -149,19 +149,22 @@ def _release_lock_on_arr_writeability(arr: np.ndarray):
         #    or view can now get unlocked
         # under all conditions view will no longer be waiting to be unlocked
         for view_arr_id in tuple(_views_waiting_for_unlock[arr_id]):
+            view_ref = _array_tracker.get(view_arr_id)
+            view_arr = view_ref() if view_ref is not None else None
+
+            if view_arr is None or view_arr.base is not arr:
+                # The view that was waiting no longer exists. Its ID may since
+                # have been re-used by an unrelated array, whose own tracking
+                # information must not be touched.
+                _views_waiting_for_unlock[arr_id].remove(view_arr_id)
+                continue
+
             if _array_counter[view_arr_id] > 0:
                 # view involved in new op
                 continue
 
             _views_waiting_for_unlock[arr_id].remove(view_arr_id)
-
-            try:
-                view_arr = _array_tracker.pop(view_arr_id)()
-                if view_arr is None:
-                    continue
-            except KeyError:
-                # view array is no longer available for unlocking
-                continue
+            _array_tracker.pop(view_arr_id, None)
 
             try:
                 view_arr.flags.writeable = True
